@@ -8,6 +8,7 @@ pub mod live;
 pub mod flavour;
 pub mod keys;
 pub mod hist;
+pub mod invariants;
 
 use std::io::Write;
 
